@@ -226,6 +226,7 @@ async fn body(seed: u64) -> Outcome {
     };
     let desc = vec![format!("names=({na},{nb}) connections(id, initiated_by_A, nonce, delay)={plan:?} spoofers={nspoof}")];
     let mut spoof_writers = vec![];
+    let mut relays: Vec<Arc<super::c20::Link>> = vec![];
     // open the connections
     let mut order: Vec<usize> = (0..plan.len()).collect();
     p.shuffle(&mut order);
@@ -237,7 +238,16 @@ async fn body(seed: u64) -> Outcome {
         if delay == 3 {
             tokio::time::sleep(Duration::from_millis(p.range(1, 30))).await;
         }
-        let (x, y) = tokio::io::duplex(1 << 16);
+        // half of the links go through a relay that fragments and delays (virtual time), so that the handshakes of
+        // different links overlap in many ways
+        let (x, y) = if p.chance(1, 2) {
+            tokio::io::duplex(1 << 16)
+        } else {
+            let (mc, dp, md) = *p.pick(&[(8u64, 30u64, 3u64), (64, 50, 10), (2000, 60, 25)]);
+            let (x, y, link) = super::c20::make_link(&mut p, mc, dp, md, [u64::MAX, u64::MAX]);
+            relays.push(link);
+            (x, y)
+        };
         let label = format!("link-{id}");
         crate::ctl::ctl().push_override(ractor::verif::pt::OV_CONNECTION_ID, nonce);
         let (ini, acc) = if by_a { (&node_a, &node_b) } else { (&node_b, &node_a) };
@@ -300,6 +310,39 @@ async fn body(seed: u64) -> Outcome {
     if final_labels.iter().flatten().any(|l| l.starts_with("spoof")) {
         v.push(("spoofer-won".into(), format!("a spoofed connection is listed as authenticated: {final_labels:?}")));
     }
+    // a `ready` event may only be reported for a session that is elected when the node processes its readiness: if, in a
+    // node's own event stream, another real link W was reported authenticated (and not yet disconnected) before `ready(L)`
+    // and the real election function prefers W over L on that node, L had already lost
+    for (who, ev, this, peer, at_a) in [("A", &ev_a, &na, &nb, true), ("B", &ev_b, &nb, &na, false)] {
+        let log = ev.log.lock().unwrap().clone();
+        let conn_of = |label: &str| -> Option<Conn> {
+            let id: u64 = label.strip_prefix("link-")?.parse().ok()?;
+            plan.iter().find(|c| c.0 == id).map(|c| (c.1, c.2))
+        };
+        let mut auth_live: Vec<String> = vec![];
+        for (_, kind, label) in &log {
+            match *kind {
+                "authenticated" => auth_live.push(label.clone()),
+                "disconnected" => auth_live.retain(|l| l != label),
+                "ready" => {
+                    if let Some(lc) = conn_of(label) {
+                        for w in auth_live.iter().filter(|w| *w != label) {
+                            if let Some(wc) = conn_of(w) {
+                                if wc == lc {
+                                    continue; // identical labels: a tie the election cannot break by itself
+                                }
+                                let winners = elect_at(this, peer, at_a, &[lc, wc], &[1, 2], &[0, 1]);
+                                if winners.len() == 1 && winners.contains(&1) {
+                                    v.push(("ready-for-loser".into(), format!("node {who} reported {label} ready although {w}, which its election prefers, had been reported authenticated before and was still connected (events: {:?})", log.iter().map(|(_, k, l)| format!("{k}:{l}")).collect::<Vec<_>>())));
+                                }
+                            }
+                        }
+                    }
+                }
+                _ => {}
+            }
+        }
+    }
     for (who, ev) in [("A", &ev_a), ("B", &ev_b)] {
         let log = ev.log.lock().unwrap().clone();
         // at all times (#ready - #ready-then-disconnected) <= 1, finally 1
@@ -336,6 +379,9 @@ async fn body(seed: u64) -> Outcome {
         }
     }
     // ---- teardown
+    for l in &relays {
+        l.cut_now();
+    }
     drop(spoof_writers);
     node_a.stop(None);
     node_b.stop(None);
